@@ -5,6 +5,7 @@ import (
 	"encoding/hex"
 	"errors"
 	"fmt"
+	"math"
 	"os"
 	"strconv"
 	"time"
@@ -247,15 +248,38 @@ func (v *CheckPremiumAmount) Execute(services *SwapServices, swap *SwapData) Eve
 			return swap.HandleError(fmt.Errorf("premium amt too high: %d, limit : %d",
 				swap.SwapInAgreement.Premium, swap.SwapInRequest.PremiumLimit))
 		}
+		if !premiumInRange(swap.SwapInRequest.Amount, swap.SwapInAgreement.Premium) {
+			return swap.HandleError(fmt.Errorf("amount %d plus premium %d is out of range",
+				swap.SwapInRequest.Amount, swap.SwapInAgreement.Premium))
+		}
 		return v.next.Execute(services, swap)
 	} else if swap.SwapOutAgreement != nil {
 		if swap.SwapOutAgreement.Premium > swap.SwapOutRequest.PremiumLimit {
 			return swap.HandleError(fmt.Errorf("premium amt too high: %d, limit : %d",
 				swap.SwapOutAgreement.Premium, swap.SwapOutRequest.PremiumLimit))
 		}
+		if !premiumInRange(swap.SwapOutRequest.Amount, swap.SwapOutAgreement.Premium) {
+			return swap.HandleError(fmt.Errorf("amount %d plus premium %d is out of range",
+				swap.SwapOutRequest.Amount, swap.SwapOutAgreement.Premium))
+		}
 		return v.next.Execute(services, swap)
 	}
 	return swap.HandleError(fmt.Errorf("unexpected swap data: %v", swap))
+}
+
+// premiumInRange reports whether amount+premium is a non-negative satoshi
+// amount whose millisatoshi value fits into a uint64. GetClaimAmount and
+// GetOpeningTXAmount compute uint64(int64(amount)+premium) and the claim
+// invoice is compared against that value times 1000; outside this range the
+// arithmetic wraps around, so a peer could pick a (negative) premium for which
+// the wrapped invoice amount exceeds amount plus the premium limit.
+func premiumInRange(amount uint64, premium int64) bool {
+	const maxSat = math.MaxUint64 / 1000
+	if amount > maxSat {
+		return false
+	}
+	sum := int64(amount) + premium
+	return sum >= 0 && uint64(sum) <= maxSat
 }
 
 type CreateAndBroadcastOpeningTransaction struct{}
